@@ -2,6 +2,7 @@ package gvc
 
 import (
 	"fmt"
+	"os"
 	"go/token"
 	"go/types"
 	"strings"
@@ -30,19 +31,26 @@ func where(P *Program, in ssa.Instruction) string {
 // operation plus an ordinal among equal operations in the function.
 func (vc *VC) siteName(in ssa.Instruction, what string) string {
 	fn := in.Parent()
-	n := 0
-	for _, b := range fn.Blocks {
-		for _, x := range b.Instrs {
-			if x == in {
-				return fmt.Sprintf("%s#%d@%s", what, n, fn.Name())
-			}
-			if siteWhat(x) == what {
-				n++
+	m, ok := siteMemo[fn]
+	if !ok {
+		m = map[ssa.Instruction]string{}
+		cnt := map[string]int{}
+		for _, b := range fn.Blocks {
+			for _, x := range b.Instrs {
+				w := siteWhat(x)
+				m[x] = fmt.Sprintf("%s#%d@%s", w, cnt[w], fn.Name())
+				cnt[w]++
 			}
 		}
+		siteMemo[fn] = m
+	}
+	if s, ok := m[in]; ok {
+		return s
 	}
 	return what
 }
+
+var siteMemo = map[*ssa.Function]map[ssa.Instruction]string{}
 
 func siteWhat(in ssa.Instruction) string {
 	switch x := in.(type) {
@@ -223,6 +231,12 @@ func (vc *VC) learn(st *State, c string, truth bool) {
 	} else {
 		st.known["b:"+c] = "false"
 	}
+	if truth && strings.HasPrefix(c, "(and ") {
+		for _, part := range splitArgs(c[5 : len(c)-1]) {
+			vc.learn(st, part, true)
+		}
+		return
+	}
 	if truth && strings.HasPrefix(c, "(= ") {
 		parts := splitArgs(c[3 : len(c)-1])
 		if len(parts) == 2 && isNumeral(parts[1]) {
@@ -255,10 +269,13 @@ func (vc *VC) instr(st *State, fr *Frame, in ssa.Instruction, k func(*State, *Fr
 		elem := x.Type().(*types.Pointer).Elem()
 		a := vc.alloc(st, "a")
 		vc.storeAt(st, a, elem, vc.zero(elem))
+		if si := isModStruct(vc, elem); si != nil {
+			vc.assume(st, eq(app("dyn", a.S), fmt.Sprint(vc.typeID(elem))))
+		}
 		fr.vals[x] = a
 	case *ssa.FieldAddr:
 		base := vc.val(st, fr, x.X)
-		vc.check(st, not(eq(base.S, "0")), "nil", vc.siteName(in, "fieldaddr"))
+		vc.checkNonNil(st, base.S, vc.siteName(in, "fieldaddr"))
 		pt := x.X.Type().Underlying().(*types.Pointer).Elem()
 		si := vc.structOf(pt)
 		ft := si.st.Field(x.Field).Type()
@@ -289,9 +306,15 @@ func (vc *VC) instr(st *State, fr *Frame, in ssa.Instruction, k func(*State, *Fr
 	case *ssa.Store:
 		p := vc.val(st, fr, x.Addr)
 		if p.Loc == nil {
-			vc.check(st, not(eq(p.S, "0")), "nil", vc.siteName(in, "store"))
+			vc.checkNonNil(st, p.S, vc.siteName(in, "store"))
 		}
-		vc.storeAt(st, p, x.Val.Type(), vc.val(st, fr, x.Val))
+		sv := vc.val(st, fr, x.Val)
+		vc.storeAt(st, p, x.Val.Type(), sv)
+		if al, ok := x.Addr.(*ssa.Alloc); ok && singleAssign(al) {
+			// a captured variable that is assigned exactly once keeps its
+			// value across calls (nobody else can write the cell)
+			st.known["cell:"+p.S] = sv.S
+		}
 	case *ssa.BinOp:
 		fr.vals[x] = vc.binop(st, fr, x)
 	case *ssa.Phi:
@@ -373,8 +396,12 @@ func (vc *VC) unop(st *State, fr *Frame, x *ssa.UnOp) {
 	v := vc.val(st, fr, x.X)
 	switch x.Op {
 	case token.MUL:
+		if cv, ok := st.known["cell:"+v.S]; ok {
+			fr.vals[x] = T{S: cv, Sort: vc.sortOf(x.Type())}
+			return
+		}
 		if v.Loc == nil {
-			vc.check(st, vc.nonnil(st, v.S), "nil", vc.siteName(x, "load"))
+			vc.checkNonNil(st, v.S, vc.siteName(x, "load"))
 		}
 		fr.vals[x] = vc.loadAt(st, v, x.Type())
 	case token.NOT:
@@ -398,7 +425,7 @@ func (vc *VC) nonnil(st *State, a string) string {
 	if _, ok := st.known["nonnil:"+a]; ok {
 		return "true"
 	}
-	if strings.HasPrefix(a, "(- ") { // global address
+	if strings.HasPrefix(a, "(- ") || strings.HasPrefix(a, "(eaddr ") { // global address, slice cell
 		return "true"
 	}
 	return not(eq(a, "0"))
@@ -477,6 +504,14 @@ func (vc *VC) binopT(st *State, op token.Token, a, b T, opndTy, resTy types.Type
 		case token.EQL:
 			if k, ok := st.known["eq:"+a.S]; ok && isNumeral(b.S) {
 				return B(k == b.S)
+			}
+			if os.Getenv("GVC_DEBUG") != "" && isNumeral(b.S) {
+				fmt.Println("EQL nofold:", a.S)
+				for k := range st.known {
+					if strings.HasPrefix(k, "eq:") {
+						fmt.Println("   known", k)
+					}
+				}
 			}
 			return T{S: eq(a.S, b.S), Sort: SBool}
 		case token.NEQ:
@@ -633,6 +668,11 @@ func (vc *VC) convert(st *State, fr *Frame, x *ssa.Convert) T {
 			// generated where the variant is dereferenced (dyn tags)
 			r := v
 			r.Loc = nil
+			if fb != nil && fb.Kind() == types.UnsafePointer {
+				if pt, ok := to.(*types.Pointer); ok && isModStruct(vc, pt.Elem()) != nil && !vc.sameVariantFamily(x, pt.Elem()) {
+					vc.check(st, or(eq(v.S, "0"), eq(app("dyn", v.S), fmt.Sprint(vc.typeID(pt.Elem())))), "cast", vc.siteName(x, "convert"))
+				}
+			}
 			return r
 		}
 		if tb != nil && fb != nil {
@@ -825,7 +865,7 @@ func (vc *VC) indexAddr(st *State, fr *Frame, x *ssa.IndexAddr) {
 		fr.vals[x] = T{S: vc.elemAddr(st, app("sarr", base.S), addS(app("soff", base.S), idx.S)), Sort: SInt}
 	case *types.Pointer:
 		at := t.Elem().Underlying().(*types.Array)
-		vc.check(st, vc.nonnil(st, base.S), "nil", vc.siteName(x, "indexaddr"))
+		vc.checkNonNil(st, base.S, vc.siteName(x, "indexaddr"))
 		vc.check(st, and(app("<=", "0", idx.S), app("<", idx.S, fmt.Sprint(at.Len()))), "index", vc.siteName(x, "indexaddr"))
 		fr.vals[x] = T{S: vc.elemAddr(st, base.S, idx.S), Sort: SInt}
 	default:
@@ -1088,4 +1128,105 @@ func (vc *VC) rangeNext(st *State, fr *Frame, x *ssa.Next) {
 	s := vc.val(st, fr, rng.X).S
 	vc.assume(st, implies(okv.S, and(app("<=", "0", idx.S), app("<", idx.S, app("strlen", s)))))
 	fr.vals[x] = T{Sort: "Tuple", Tup: []T{okv, idx, r}}
+}
+
+// sameVariantFamily: a cast  *T -> unsafe.Pointer -> *U  where U is the
+// first (embedded) field type of T or U == T needs no tag check.
+func (vc *VC) sameVariantFamily(x *ssa.Convert, target types.Type) bool {
+	inner, ok := x.X.(*ssa.Convert)
+	if !ok {
+		return false
+	}
+	pt, ok := inner.X.Type().Underlying().(*types.Pointer)
+	if !ok {
+		return false
+	}
+	src := pt.Elem()
+	if types.Identical(src, target) {
+		return true
+	}
+	// upcast to the embedded first field
+	if st, ok := src.Underlying().(*types.Struct); ok && st.NumFields() > 0 && types.Identical(st.Field(0).Type(), target) {
+		return true
+	}
+	return false
+}
+
+var singleAssignMemo = map[*ssa.Alloc]bool{}
+
+// singleAssign: the cell is stored to exactly once in its function and
+// never through a closure that captured it.
+func singleAssign(al *ssa.Alloc) bool {
+	if r, ok := singleAssignMemo[al]; ok {
+		return r
+	}
+	fn := al.Parent()
+	n := 0
+	okAll := true
+	if refs := al.Referrers(); refs != nil {
+		for _, r := range *refs {
+			switch x := r.(type) {
+			case *ssa.Store:
+				if x.Addr != ssa.Value(al) {
+					okAll = false
+				}
+			case *ssa.UnOp, *ssa.MakeClosure, *ssa.DebugRef:
+			default:
+				okAll = false // field/index address taken, passed to a call, ...
+			}
+		}
+	}
+	var scanClosure func(f *ssa.Function, fv *ssa.FreeVar)
+	scanClosure = func(f *ssa.Function, fv *ssa.FreeVar) {
+		for _, b := range f.Blocks {
+			for _, in := range b.Instrs {
+				switch x := in.(type) {
+				case *ssa.Store:
+					if x.Addr == ssa.Value(fv) {
+						okAll = false
+					}
+				case *ssa.MakeClosure:
+					for i, bnd := range x.Bindings {
+						if bnd == ssa.Value(fv) {
+							scanClosure(x.Fn.(*ssa.Function), x.Fn.(*ssa.Function).FreeVars[i])
+						}
+					}
+				case *ssa.Call:
+					for _, a := range x.Call.Args {
+						if a == ssa.Value(fv) {
+							okAll = false
+						}
+					}
+				}
+			}
+		}
+	}
+	for _, b := range fn.Blocks {
+		for _, in := range b.Instrs {
+			switch x := in.(type) {
+			case *ssa.Store:
+				if x.Addr == ssa.Value(al) {
+					n++
+				}
+				if x.Val == ssa.Value(al) {
+					okAll = false // address escapes into the heap
+				}
+			case *ssa.MakeClosure:
+				for i, bnd := range x.Bindings {
+					if bnd == ssa.Value(al) {
+						scanClosure(x.Fn.(*ssa.Function), x.Fn.(*ssa.Function).FreeVars[i])
+					}
+				}
+			case *ssa.Call:
+				for _, a := range x.Call.Args {
+					if a == ssa.Value(al) {
+						okAll = false
+					}
+				}
+			}
+		}
+	}
+	r := okAll && n == 1
+	singleAssignMemo[al] = r
+	return r
 }
